@@ -3,6 +3,7 @@
 import ast
 import itertools
 import os
+import re
 import subprocess
 import sys
 import threading
@@ -908,6 +909,10 @@ def check_C17(ctx, rt):
                               "an output atom is not attributed to exactly its enclosing branch symbols and its atom symbol",
                               selfies=idx[i - 1][:400], reported=expected[i][:300], enclosing=got[:300])
         pool = smiles_pool(ctx, rt, n_data=rt.n(10, 200))
+        # bond characters of every kind in front of atoms, in chains and inside branches (explicit '-', '/', '\\', ':')
+        pool = pool + [x for x in gens.STEREO_SEEDS if x not in pool] + [
+            "C-C=O", "C-C-C", "CC(-O)C", "N-C(=O)-C", "C(-F)(-Cl)-Br", "F/C=C/C(-O)=O", "C-1CC1-O", "[NH4+]-C",
+            "c1ccccc1-c1ccccc1", "C:C", "Cl/C=C(/F)-Br", "C#C-C=C"]
         for smi in pool:
             ctx.evaluations += 1
             try:
@@ -953,10 +958,26 @@ def check_C17(ctx, rt):
                     add_violation(ctx, "C17:encoder-atom", "a SELFIES atom symbol is not attributed to its SMILES atom token",
                                   smiles=smi, symbol=k[0], smiles_token=k[1], selfies=s)
                     break
+            # an Attribution names a SMILES token by (index, text): where the library's numbering coincides with plain
+            # token positions (no '.', no bond character in front of a ring digit - on the unchanged tree the numbering
+            # skips both, which the property does not speak about), the token at the reported index must be that text
+            if "." not in smi and not _RING_BOND.search(smi):
+                toks = oracles._TOKEN.findall(smi)
+                for m in maps:
+                    wrong = [a for a in (m.attribution or []) if not (0 <= a.index < len(toks) and toks[a.index] == a.token)]
+                    if wrong:
+                        add_violation(ctx, "C17:encoder-index",
+                                      "a SELFIES symbol is attributed to a SMILES position that does not hold the reported token",
+                                      smiles=smi, symbol=m.token, reported=str(wrong[0]),
+                                      token_there=(toks[wrong[0].index] if 0 <= wrong[0].index < len(toks) else None))
+                        break
         run_encoder_stream(ctx, rt, "encoder-attribution", pool[:rt.n(500, 8000)], "relaxed", relaxed(sf), flags="sa")
         ctx.sample({"selfies": "[C][C].[C][N]", "attribution": str(sf.decoder("[C][C].[C][N]", attribute=True)[1][-1])})
     finally:
         restore_default()
+
+
+_RING_BOND = re.compile(r"[-=#$:/\\](%\d\d|\d)")
 
 
 # ===================================================================== configuration histories
